@@ -27,7 +27,7 @@
   Core Lean only.
 -/
 import NngModel.Base.Bytes
-import NngModel.Generated.Consts
+import NngModel.Generated.Base
 import NngModel.Spec.Backtrace
 namespace Nng.Bt
 open Nng
